@@ -24,14 +24,15 @@ def who_may_write(prog: Program, rep: Report) -> None:
     allowed = {f"{st_mod}.{st_cls}.__init__", f"{st_mod}.{st_cls}.append", f"{st_mod}.{st_cls}.compactify", "warm_start.warm_start"}
     n = 0
     for w in statefx.state_writes(prog):
-        touches_pid = w.key in ("npid", "pid") or (w.key == "<dynamic>" and w.fi.qual in (f"{st_mod}.{st_cls}.compactify", "warm_start.warm_start"))
+        owners = prog.effective_owners(w.fi.qual)
+        touches_pid = w.key in ("npid", "pid") or (w.key == "<dynamic>" and bool(owners & {f"{st_mod}.{st_cls}.compactify", "warm_start.warm_start"}))
         if w.key == "<dynamic>" and w.fi.qual == f"{st_mod}.{st_cls}.__setitem__":
             # the public item-assignment API: pid is not protected there, callers are checked instead
             continue
         if not touches_pid:
             continue
         n += 1
-        rep.check(rule, w.fi.qual, short(w.node), w.fi.qual in allowed, what_bad=f"writes {w.key} outside State.__init__/append/compactify and warm_start: identifiers can be reused or reordered", what_ok=f"{w.key}: owner function", loc=w.fi.loc(w.node))
+        rep.check(rule, w.fi.qual, short(w.node), owners <= allowed, what_bad=f"writes {w.key} outside State.__init__/append/compactify and warm_start: identifiers can be reused or reordered", what_ok=f"{w.key}: owner function", loc=w.fi.loc(w.node))
     # callers of the item API never name pid / alive-by-True etc.
     for w in statefx.state_writes(prog):
         if w.fi.qual.startswith(f"{st_mod}.{st_cls}.") or w.fi.qual == "warm_start.warm_start":
@@ -43,9 +44,31 @@ def who_may_write(prog: Program, rep: Report) -> None:
         raise AnalysisError("state-write enumeration found fewer writers than confirmed by hand")
 
 
+def _lower_dict_union(fi):
+    """`self.default_values | args` -> `dict(self.default_values, **args)` (the operands are dictionaries:
+    the configured defaults and the keyword arguments), so one form reaches the evaluator."""
+    import copy
+
+    from ..program import FuncInfo
+
+    kw = fi.node.args.kwarg.arg if fi.node.args.kwarg else None
+    dicts = {"self.default_values", kw}
+
+    class T(ast.NodeTransformer):
+        def visit_BinOp(self, n: ast.BinOp):
+            self.generic_visit(n)
+            if isinstance(n.op, ast.BitOr) and (unparse(n.left) in dicts or unparse(n.right) in dicts):
+                return ast.copy_location(ast.Call(func=ast.Name(id="dict", ctx=ast.Load()), args=[n.left], keywords=[ast.keyword(arg=None, value=n.right)]), n)
+            return n
+
+    return FuncInfo(fi.module, fi.qual, ast.fix_missing_locations(T().visit(copy.deepcopy(fi.node))), fi.cls)
+
+
 def append_step(prog: Program, rep: Report) -> None:
     rule = "R05.2"
-    fi = prog.role_func("state", "append")
+    from ..program import inline_helpers
+
+    fi = _lower_dict_union(inline_helpers(prog, prog.role_func("state", "append")))
     dom = NFDomain()
     log = {"raises_after_store": False}
 
@@ -94,7 +117,7 @@ def append_step(prog: Program, rep: Report) -> None:
     import re as _re
 
     vts = vt.replace(" ", "")
-    mvar = _re.fullmatch(r"cat\(state\.variables;bto\((item[^;()]*);\(([^()]*?),?\)\)\)", vts)
+    mvar = _re.fullmatch(r"cat\(state\.variables;bto\((item[^;()]*|value_var);\(([^()]*?),?\)\)\)", vts)
     ok_var = isinstance(n_nf, NF) and (bool(mvar) and mvar.group(2) == n_nf.canon().replace(" ", "") or (vts.startswith("cat(state.variables;") and f";({n_nf.canon()},))".replace(" ", "") in vts))
     rep.check(rule, fi.qual, "every other variable: concatenate(old, value broadcast to n)", bool(ok_var), what_bad=f"variables become {vt}: old elements first and n new ones, or the arrays lose alignment with pid", what_ok="old first, n new values", loc=fi.loc())
     # loop domain
